@@ -6,7 +6,7 @@ from __future__ import annotations
 import dataclasses
 import typing as t
 
-from .asn1 import ASN1Reader, ASN1Tag, ASN1Writer, TagClass
+from .asn1 import ASN1Reader, ASN1Tag, ASN1Writer, TagClass, TypeTagNumber
 
 
 @dataclasses.dataclass
@@ -248,8 +248,12 @@ class SaslCredential(AuthenticationCredential):
         ).decode(options.string_encoding)
         credentials: t.Optional[bytes] = None
         if sasl_reader:
-            credentials = sasl_reader.read_octet_string(
-                hint="SaslCredential.credentials",
-            )
+            # Anything else is an unknown trailing element that is ignored.
+            next_header = sasl_reader.peek_header()
+            if next_header.tag == ASN1Tag.universal_tag(TypeTagNumber.OCTET_STRING):
+                credentials = sasl_reader.read_octet_string(
+                    header=next_header,
+                    hint="SaslCredential.credentials",
+                )
 
         return SaslCredential(mechanism=mechanism, credentials=credentials)
